@@ -60,6 +60,7 @@ func AddressesFromStreamKey(key []byte) (sdk.AccAddress, sdk.AccAddress) {
 
 // FirstAddressFromStreamStoreKey parses the first address only
 func FirstAddressFromStreamStoreKey(key []byte) sdk.AccAddress {
-	addrLen := key[0]
+	// the length prefix is one byte: widen it before adding, 1+255 does not fit a uint8
+	addrLen := int(key[0])
 	return sdk.AccAddress(key[1 : 1+addrLen])
 }
